@@ -38,7 +38,7 @@ def r_C05cde(root):
         # single-valued children must be None-tested (getattr of an optional containment attribute may be None)
         ob("C05", "C05.c", M, "get_children.follow", ast.unparse(c), okc)
     # ---- C05.d
-    gp = find(t, "get_parent_of_type"); fig = sem.info(gp); cfg = fig.cfg
+    gp = find_i(root, M, "get_parent_of_type"); fig = sem.info(gp); cfg = fig.cfg
     loop = next((n for n in gp.body if isinstance(n, (ast.While, ast.For))), None)
     if loop is None: raise AnalysisError("get_parent_of_type: loop not found")
     pname = gp.args.args[1].arg
@@ -58,8 +58,8 @@ def r_C05cde(root):
     for n in other: out.append(Finding("C05", "C05.d", M, "get_parent_of_type", ast.unparse(n.ast), "the search moves along something else than the parent link"))
     # ---- C05.e
     for q in ("get_parent_of_type", "get_children_of_type"):
-        fn = find(t, q); tn = fn.args.args[0].arg; inst += 1
-        norm = [n for n in own_nodes(fn) if isinstance(n, ast.Assign) and any(isinstance(x, ast.Name) and x.id == tn for x in n.targets)]
+        fn = find_i(root, M, q); tn = fn.args.args[0].arg; inst += 1
+        norm = [n for n in own_nodes(fn) if isinstance(n, ast.Assign) and any(isinstance(x, ast.Name) and x.id == tn for x in n.targets) and not (isinstance(n.value, ast.Name) and n.value.id == tn)]
         cmps = [n for n in ast.walk(fn) if isinstance(n, ast.Compare) and len(n.ops) == 1 and isinstance(n.ops[0], (ast.Eq, ast.NotEq)) and any(isinstance(x, ast.Name) and x.id == tn for x in [n.left] + n.comparators)]
         if not cmps: raise AnalysisError("%s: type comparison not found" % q)
         def proj_obj(e):
